@@ -206,10 +206,12 @@ Print Assumptions C06_inflate_follows_raw_size.
    error slot; C06/Session.v) over any decoder that delivers objects and then ends with io.EOF or
    an error ([start] = what Start answers, [fin] = what Next answers at the end, both arbitrary):
    whatever was called before (cs1), once a Scan has returned false, whatever is called after
-   (cs2) - every Scan returns false, every Err returns the same value, every Header reports an
-   error.  Correspondence: case kind SESSION (call scripts on cut files). *)
+   (cs2, Close included) - every Scan returns false, every Err returns the same value, every
+   Header reports an error, Close returns.  (Scanner not closed before that Scan: after a Close in
+   mid-scan the error slot stays empty, Err answers ErrScannerClosed.)  Correspondence: case kind SESSION (call scripts on cut files). *)
 Theorem C06_then_stops : forall (T : Type) (start fin : serr),
   nonnil fin = true -> forall (s : sess (O := T)) cs1 cs2,
+  closed (sfinal start fin s cs1) = false ->
   snd (sstep start fin (sfinal start fin s cs1) KScan) = RScanFalse ->
   exists e ys, srun start fin s (cs1 ++ KScan :: cs2) = srun start fin s cs1 ++ RScanFalse :: ys /\
                Forall (quiet e) ys.
@@ -218,7 +220,7 @@ Print Assumptions C06_then_stops.
 
 (* a plain Scan loop on a started scanner returns the decoder's objects, then false *)
 Theorem C06_scan_loop : forall (T : Type) (start fin : serr) (l : list T) (s : sess),
-  started s = true -> s_err s = ENil -> feed s = l ->
+  started s = true -> s_err s = ENil -> closed s = false -> feed s = l ->
   srun start fin s (repeat KScan (S (length l))) = map (@RObj T) l ++ [RScanFalse].
 Proof. exact (@scan_loop). Qed.
 Print Assumptions C06_scan_loop.
